@@ -36,6 +36,8 @@ func c12Simp(alg string, a int, keep int) orb.Simplifier {
 	return s
 }
 
+var c12Prev prevTracker
+
 func c12Apply(s orb.Simplifier, kind string, generic bool, ls orb.LineString) orb.LineString {
 	in := ls.Clone()
 	if kind == "ring" {
@@ -91,6 +93,7 @@ func init() {
 					out = c12Apply(c12Simp("radial", a, 0), kind, generic, ls)
 				}
 				e["out"] = encPts(out, intFn, &ok)
+				e["pstable"] = c12Prev.check(out)
 			})
 			if site != "" {
 				c.emit(panicEvent("simplify."+alg, site, e))
